@@ -709,7 +709,7 @@ func genConc(r *rand.Rand, g int, stress bool) vh.Case {
 		own := func() int { return g*ri.Intn(u) + i }
 		n := 30 + ri.Intn(40)
 		if stress {
-			n = 150 + ri.Intn(150)
+			n = 100 + ri.Intn(100)
 		}
 		for j := 0; j < n; j++ {
 			var o wop
